@@ -329,6 +329,8 @@ def rand_input(sort, r, ctx=None):
         return r.randint(-6, 6)
     if sort == 'nat':
         return r.randint(0, 6)
+    if sort == 'small':
+        return r.choice([-1, 0, 1, 1, 2, 2, 2, 3, 3, 4, 5])
     if sort == 'bool':
         return r.random() < 0.5
     if sort == 'float':
@@ -349,7 +351,9 @@ def rand_input(sort, r, ctx=None):
     if sort == 'Position':
         return {'Position': [r.randint(-5, 5), r.randint(-5, 5)]}
     if sort == 'Shape':
-        return {'Shape': [r.randint(-1, 9), r.randint(-1, 9)]}
+        if r.random() < 0.5:
+            return {'Shape': [r.choice([5, 7, 9, 11, 13]), r.choice([5, 7, 9, 11, 13])]}
+        return {'Shape': [r.randint(-1, 13), r.randint(-1, 13)]}
     if sort == 'Area':
         a, b = sorted([r.randint(-5, 5), r.randint(-5, 5)])
         c, d = sorted([r.randint(-5, 5), r.randint(-5, 5)])
